@@ -44,6 +44,19 @@ DEVIATIONS = {
     'ack_per_key': (['C11'],
                     'a SETTINGS ACK applies one pending value of EVERY key instead of the changes of the one frame it answers '
                     '(ACK of the initial frame applies a later update_settings)'),
+    'sends_before_preamble': (['C01', 'C02'],
+                              'every frame-producing call (update_settings, send_headers, ping, ...) succeeds on a connection on which '
+                              'initiate_connection has not been called yet and writes its frame in front of the connection preamble: '
+                              'the peer refuses the byte stream (found by trace validation: P_C01_DeliveredSendsAccepted on a recorded '
+                              'client/server trace that changes a setting before upgrading)'),
+    'second_initiate_emits_preamble': (['C02', 'C29'],
+                                       'initiate_connection (or initiate_upgrade_connection) on a connection that is already '
+                                       'initiated succeeds and writes the client preface and the complete SETTINGS frame a second time '
+                                       'into the output (a byte stream no HTTP/2 peer accepts)'),
+    'upgrade_raises_after_preamble': (['C29'],
+                                      'initiate_upgrade_connection writes the connection preamble (preface, SETTINGS) into the output '
+                                      'buffer before the steps that can fail (an invalid value in the HTTP2-Settings payload, a second '
+                                      'call, a call on a connection in the wrong state): the call raises and has added bytes'),
     'frame_size_limit_snapshot': (['C21', 'C01'],
                                   'the inbound frame-size limit is copied once per receive_data() call: a DATA frame that follows, in '
                                   'the same call, the SETTINGS ACK that raised MAX_FRAME_SIZE is refused with FRAME_SIZE_ERROR '
